@@ -3,10 +3,15 @@ Oracle for C10: re-computes what the model `Gotlcp.Model.Resumption` predicts fo
 connections and evaluates the spec `Gotlcp.Spec.Resumption.check` on what the real endpoints did.
 
 case     : `stack=tlcp|dtlcp ccap=<int> scap=<int> hist=<conn>,<conn>,...`
-             conn = `<pre>/d<dst>/s<server>/<client suites>/<server suites>/<fault>`
+             conn = `<pre>/d<dst>/s<server>/<client suites>/<server suites>/<fault>[/a<policy 0..5><n|c|d>]`
+                    (policy = the server's Config.ClientAuth; n|c|d = the client has no certificate /
+                     certificate C / certificate D; absent = `a0n`)
              pre  = `-` | act{`+`act},  act = `j<k>` | `fg` | `fn` | `st<d>` | `sl`
              suites = hex ids joined by `.`;  fault = `ok` | `sf` | `cf`
-observed : `c<i>=<c ok|fail>/<s ok|fail>/<cResumed 0|1|->/<sResumed>/<offered id>/<returned id>/<id len>/<suite>/<peer>/<master>/<fresh>/<control>` …
+observed : `c<i>=<c ok|fail>/<s ok|fail>/<cResumed 0|1|->/<sResumed>/<offered id>/<returned id>/<id len>/<suite>/<peer>/<master>/<fresh>/<control>/<server view>` …
+           server view = `-` (server failed) | `<id>[v]:<vpc>:<vc>`: id = client certificate in the server's
+           ConnectionState (`n` none), `v` = VerifiedChains non-empty, vpc / vc = what the server's
+           VerifyPeerCertificate / VerifyConnection callbacks saw (`x` = not called)
            `why=<reasons>` (informational, echoed).
 Identifiers and master secrets are named `n0,n1,…` / `m0,m1,…` in order of first appearance.
 -/
@@ -29,13 +34,20 @@ def storeAfter (order : List String) : Bool :=
   | some a, some b => b < a
   | _, _ => false
 
+/-- position of a policy in the ClientAuthType enumeration -/
+def policyIdx (order : List String) (name : String) : Nat := (indexOf? order name).getD 0
+
 def tlcpParams : Params :=
-  { strictDelete := Facts.tlcp.lruPutNilAbsentReturns, perKeyObject := Facts.tlcp.resClientPutDistinct,
+  { requires := Facts.tlcp.negRequiresClientCert, requestFrom := policyIdx Facts.tlcp.saPolicyOrder "RequestClientCert",
+    verifyFrom := policyIdx Facts.tlcp.saPolicyOrder "VerifyClientCertIfGiven",
+    strictDelete := Facts.tlcp.lruPutNilAbsentReturns, perKeyObject := Facts.tlcp.resClientPutDistinct,
     storeAfterFinished := storeAfter Facts.tlcp.resClientFullOrder, verifyOnLoad := Facts.tlcp.resLoadVerifiesCerts, prefOrder := Facts.tlcp.preferenceOrder,
     ecdhe := [Facts.tlcp.ECDHE_SM4_GCM_SM3, Facts.tlcp.ECDHE_SM4_CBC_SM3], version := Facts.tlcp.VersionTLCP }
 
 def dtlcpParams : Params :=
-  { strictDelete := Facts.dtlcp.lruPutNilAbsentReturns, perKeyObject := Facts.dtlcp.resClientPutDistinct,
+  { requires := Facts.dtlcp.negRequiresClientCert, requestFrom := policyIdx Facts.dtlcp.saPolicyOrder "RequestClientCert",
+    verifyFrom := policyIdx Facts.dtlcp.saPolicyOrder "VerifyClientCertIfGiven",
+    strictDelete := Facts.dtlcp.lruPutNilAbsentReturns, perKeyObject := Facts.dtlcp.resClientPutDistinct,
     storeAfterFinished := storeAfter Facts.dtlcp.resClientFullOrder, verifyOnLoad := Facts.dtlcp.resLoadVerifiesCerts, prefOrder := Facts.dtlcp.preferenceOrder,
     ecdhe := [Facts.dtlcp.ECDHE_SM4_GCM_SM3, Facts.dtlcp.ECDHE_SM4_CBC_SM3], version := Facts.dtlcp.VersionTLCP }
 
@@ -68,16 +80,27 @@ def parseFault (s : String) : Option Fault :=
 
 def dropPrefix (s : String) (n : Nat) : String := String.ofList (s.toList.drop n)
 
+/-- `a<policy><n|c|d>` -/
+def parseAuth (s : String) : Option (Nat × Option Nat) :=
+  match s.toList with
+  | ['a', d, c] => do
+    let a ← (String.ofList [d]).toNat?
+    let cc ← if c == 'n' then some none else if c == 'c' then some (some 0) else if c == 'd' then some (some 1) else none
+    if a ≤ 5 then pure (a, cc) else none
+  | _ => none
+
 def parseConn (s : String) : Option Conn :=
-  match s.splitOn "/" with
-  | [pre, d, sv, cs, ss, f] => do
+  let mk (pre d sv cs ss f : String) (au : Nat × Option Nat) : Option Conn := do
     let pre ← parsePres pre
     let d ← (dropPrefix d 1).toNat?
     let sv ← (dropPrefix sv 1).toNat?
     let cs ← parseSuites cs
     let ss ← parseSuites ss
     let f ← parseFault f
-    pure { pre := pre, dst := d, server := sv, csuites := cs, ssuites := ss, fault := f }
+    pure { pre := pre, dst := d, server := sv, csuites := cs, ssuites := ss, fault := f, auth := au.1, ccert := au.2 }
+  match s.splitOn "/" with
+  | [pre, d, sv, cs, ss, f] => mk pre d sv cs ss f (0, none)
+  | [pre, d, sv, cs, ss, f, a] => (parseAuth a).bind (mk pre d sv cs ss f)
   | _ => none
 
 def parseHist (s : String) : Option (List Conn) := (s.splitOn ",").mapM parseConn
@@ -109,6 +132,17 @@ def identName : Option Nat → String
   | some _ => "?"
   | none => "-"
 
+/-- names of the client certificates -/
+def certName : Option Nat → String
+  | none => "n"
+  | some 0 => "C"
+  | some 1 => "D"
+  | some _ => "?"
+
+def cbName : Option (Option Nat) → String
+  | none => "x"
+  | some x => certName x
+
 structure RenderSt where
   ids  : List Nat := []
   mss  : List Nat := []
@@ -128,8 +162,9 @@ def renderOne (idLen : Nat) (st : RenderSt) (o : Obs) : RenderSt × String :=
   let ctl := match o.full with
     | some s => s!"ok:{hex4 s}"
     | none => "fail"
+  let sview := if o.sOk then s!"{certName o.speer}{if o.sver then "v" else ""}:{cbName o.vpc}:{cbName o.vc}" else "-"
   let fields := [okStr o.cOk, okStr o.sOk, if o.cOk then b01 o.cRes else "-", if o.sOk then b01 o.sRes else "-",
-    off, ret, len, suite, if o.cOk then identName o.peer else "-", ms, fresh, ctl]
+    off, ret, len, suite, if o.cOk then identName o.peer else "-", ms, fresh, ctl, sview]
   ({ ids := ids, mss := mss, keys := keys }, "/".intercalate fields)
 
 def renderAll (idLen : Nat) : RenderSt → Nat → List Obs → List String
@@ -144,21 +179,28 @@ def optTok (s : String) : Option String := if s == "-" then none else some s
 
 def parseSeen (s : String) : Option Spec.Resumption.Seen :=
   match s.splitOn "/" with
-  | [c, sv, cr, sr, off, ret, len, suite, peer, ms, fresh, ctl] =>
+  | [c, sv, cr, sr, off, ret, len, suite, peer, ms, fresh, ctl, sview] =>
     let flag (x : String) : Option Bool := if x == "1" then some true else if x == "0" then some false else none
+    -- the client identity in the server's ConnectionState: the first part of the server view without the `v` mark
+    let speer : Option String := if sview == "-" then none else
+      match sview.splitOn ":" with
+      | id :: _ => some (String.ofList (id.toList.filter (· != 'v')))
+      | [] => none
     some { cOk := c == "ok", sOk := sv == "ok", cRes := flag cr, sRes := flag sr, off := optTok off, ret := optTok ret,
            retLen := len.toNat?, suite := (optTok suite).bind hexNat, peer := optTok peer, ms := optTok ms,
            fresh := flag fresh,
            ctl := match ctl.splitOn ":" with
              | ["ok", su] => hexNat su
-             | _ => none }
+             | _ => none,
+           speer := speer }
   | _ => none
 
 def descOf (c : Conn) : Spec.Resumption.Desc :=
   { dst := c.dst, server := c.server, csuites := c.csuites, ssuites := c.ssuites,
     mitm := c.fault != .none,
     serverLost := c.pre.contains .dropServer,
-    staleCopy := c.pre.any (fun a => match a with | .stale _ => true | _ => false) }
+    staleCopy := c.pre.any (fun a => match a with | .stale _ => true | _ => false),
+    auth := c.auth, ccert := c.ccert.map (fun x => certName (some x)) }
 
 def collectSeen (ot : List String) : Nat → Nat → Option (List Spec.Resumption.Seen)
   | 0, _ => some []
